@@ -11,3 +11,4 @@ open Verif.Props.C08
 #print axioms decimal_round
 #print axioms decimal_shape
 #print axioms holds_sound
+#print axioms number_json_hypotheses
